@@ -35,6 +35,11 @@ def Session.new (c : Cfg) : Session :=
     rt := { keepaliveMs := c.keepaliveS * 1000, configuredKeepaliveMs := c.keepaliveS * 1000 },
     will := c.will, auth := c.auth, expiry := c.expiry, downgrade := c.downgrade }
 
+/-- The CONNECT packet `connect_handshake` builds from the session. -/
+def Session.connectPacket (s : Session) : Connect :=
+  { keepalive := s.rt.configuredKeepaliveMs / 1000, props := .slice (connectProps s.reader.cap s.expiry),
+    clientId := s.clientId, auth := s.auth, will := s.will, cleanStart := !s.data.sessionPresent }
+
 /-- `Session::handle_disconnect`. -/
 def Session.handleDisconnect (s : Session) : Session :=
   { s with data := { s.data with outbound := s.data.outbound.armReplay },
